@@ -411,6 +411,12 @@ class Inliner:
         f = _lookup(self.facts, cal)
         if f is None or f.get("body_raw", f.get("body")) is None:
             return None
+        helper = bool(f.get("internal")) or f.get("access", 0) in (1, 2)
+        if not helper:
+            # cheap pre-filter for getters / forwarders: declarations followed by one return
+            st = ir.stmts(f.get("body_raw", f.get("body")))
+            if not st or st[-1].get("k") != "Return" or st[-1].get("e") is None or any(x.get("k") != "Decl" for x in st[:-1]):
+                return None
         return f
 
     def inlinable(self, f, nb):
@@ -633,7 +639,9 @@ class Inliner:
         key = f["key"]
         if key in self.done:
             return self.done[key]
-        if key in stack or len(stack) >= MAX_DEPTH:
+        if key in stack or len(stack) >= 40:
+            # only a call cycle stops the expansion (the result of a caller must not depend on how deep in some other
+            # function's expansion it happened to be computed first: bodies are cached)
             return None
         body = copy.deepcopy(f.get("body_raw", f.get("body")))
         body = self.expand_body(body, stack + (key,), f)
@@ -892,12 +900,13 @@ class Inliner:
         # statement-level: the call is the whole statement, the whole right-hand side, the whole initialiser or
         # the whole returned expression
         site = self.statement_site(s)
-        if site is None:
-            return [s]
-        call, K, void_ok = site
-        parts = self.callee_parts(call, stack)
+        parts = self.callee_parts(site[0], stack) if site is not None else None
+        if parts is None:
+            site = self.statement_site(s, nested=True)
+            parts = self.callee_parts(site[0], stack) if site is not None else None
         if parts is None:
             return [s]
+        call, K, void_ok = site
         params, body, recv, name, is_lam, cid, args = parts
         if len(args) < len(params):
             return [s]
@@ -1100,9 +1109,12 @@ class Inliner:
             return [{"k": "Decl", "l": call.get("l"), "vars": [acc]}, loop] + rest
         return None
 
-    def statement_site(self, s):
-        """Locate `call` when s has one of the forms  call; | lhs op= call; | T x = call; | return call;"""
+    def statement_site(self, s, nested=False):
+        """Locate `call` when s has one of the forms  call; | lhs op= call; | T x = call; | return call;
+        (nested=True: a single helper call among the arguments of the statement's own call)"""
         k = s.get("k")
+        if nested:
+            return self._nested_site(s)
 
         def is_call(e):
             u = unwrap(e)
@@ -1156,6 +1168,63 @@ class Inliner:
                     return [{"k": "Decl", "l": s.get("l"), "vars": [v2]}]
                 raise NoInline("several returns feed a declaration")
             return unwrap(v["init"]), K, False
+        return None
+
+    def _nested_site(self, s):
+        k = s.get("k")
+
+        def is_call(e):
+            u = unwrap(e)
+            return isinstance(u, dict) and u.get("k") in ("Call", "MCall", "OpCall") and \
+                (u.get("k") != "OpCall" or u.get("op") == "()")
+        # a helper call nested in the arguments of the statement's own call (`list.push_back(make_item(x))`): it runs
+        # before the outer call; allowed when it is the only thing with an effect besides that outer call
+        root = None
+        if k in ("Call", "MCall", "OpCall"):
+            root = s
+        elif k == "Bin" and s.get("op", "").endswith("=") and s["op"] not in ("==", "!=", "<=", ">="):
+            root = unwrap(s.get("rhs"))
+        elif k == "Return" and s.get("e") is not None:
+            root = unwrap(s["e"])
+        if isinstance(root, dict) and root.get("k") in ("Call", "MCall", "OpCall", "Construct"):
+            nested = []
+
+            def scan(n, top):
+                if not isinstance(n, dict):
+                    return
+                kk = n.get("k")
+                if kk == "Lambda":
+                    return
+                if kk == "Cond":
+                    scan(n.get("c"), False)
+                    return
+                if kk == "Bin" and n.get("op") in ("&&", "||", ","):
+                    scan(n.get("lhs"), False)
+                    return
+                if not top and is_call(n):
+                    nested.append(n)
+                    return
+                for c in ir.children(n):
+                    scan(c, False)
+            scan(root, True)
+            cand = [n for n in nested if (self.find_lambda(n, self._lambdas) is not None or self.target_function(n) is not None)]
+            others = [n for n in nested if not any(n is c for c in cand)]
+            if len(cand) == 1 and all(is_pure(n, self.facts) for n in others):
+                target = cand[0]
+
+                def K(e, s=s, target=target):
+                    def rep(n):
+                        if isinstance(n, list):
+                            return [rep(x) for x in n]
+                        if not isinstance(n, dict):
+                            return n
+                        if n is target:
+                            return e
+                        return {key: (rep(v) if isinstance(v, (dict, list)) else v) for key, v in n.items()}
+                    if e is None:
+                        raise NoInline("a void helper in a value position")
+                    return [rep(s)]
+                return target, K, False
         return None
 
 
